@@ -178,6 +178,19 @@ theorem C10_prefix_stable_nonvacuous :
         = [⟨.tokenRequired "field value", some 2⟩] :=
   ⟨fun _ _ _ _ _ => rfl, by decide +kernel⟩
 
+/-- **Confinement, per command.**  Whatever the `k+1`-st command of the text looks like —
+well-formed or not — reading and processing it appends at most one entry and at most one preamble
+item to what was there after `k` commands, and leaves every earlier item as it was.  In particular
+a malformed entry leaves at most one (partial) entry behind.  (Parsing a command never touches the
+bibliography data at all: `parseCommand_db`; only processing its result appends.) -/
+theorem C10_confined_step (text : Str) (strict : Bool) (wanted : Option (List Str))
+    (macros0 : List (Str × Str)) (roles : List Str) (k : Nat) :
+    (∃ l, (afterCommands (k + 1) text strict wanted macros0 roles).db.entries
+        = (afterCommands k text strict wanted macros0 roles).db.entries ++ l ∧ l.length ≤ 1) ∧
+    (∃ l, (afterCommands (k + 1) text strict wanted macros0 roles).db.preamble
+        = (afterCommands k text strict wanted macros0 roles).db.preamble ++ l ∧ l.length ≤ 1) :=
+  parseLoop_step k _
+
 /-- **Confinement fails when the malformed entry contains an `@`** (known finding
 `C10-at-inside-malformed-entry`).  The second command `@misc{k, t = x y @misc{z, u = 1} }` has
 balanced braces and quotes.  Reading resynchronises at the `@` inside it, so a bogus entry `z`
